@@ -12,6 +12,8 @@ import (
 	"sort"
 	"strings"
 
+	"golang.org/x/text/unicode/norm"
+
 	"verifharness/bn"
 )
 
@@ -184,7 +186,7 @@ func Flatten(v Value) (toks []string, bag bool, ok bool) {
 			if v.Fuzzy || v.S == "" || strings.ContainsAny(v.S, " \t\n[]{}(),:") {
 				ok = false
 			}
-			toks = append(toks, v.S)
+			toks = append(toks, norm.NFC.String(v.S))
 		case KArr:
 			if seen[v.A] {
 				ok = false
@@ -213,7 +215,7 @@ func Flatten(v Value) (toks []string, bag bool, ok bool) {
 			}
 			sort.Strings(keys)
 			for _, k := range keys {
-				toks = append(toks, k)
+				toks = append(toks, norm.NFC.String(k))
 				rec(v.O.M[k])
 			}
 			delete(seen, v.O)
